@@ -1290,6 +1290,10 @@ class Trimesh(Geometry3D):
         if util.is_shape(self.vertices, (-1, 3)):
             # (len(self.vertices), ) bool, mask for vertices
             vertex_mask = np.isfinite(self.vertices).all(axis=1)
+            if not vertex_mask.all() and util.is_shape(self.faces, (-1, 3)):
+                # remove faces that reference a vertex we are about to
+                # remove otherwise they are re-indexed to another vertex
+                self.update_faces(vertex_mask[self.faces].all(axis=1))
             self.update_vertices(vertex_mask)
 
     def unique_faces(self) -> NDArray[np.bool_]:
